@@ -129,7 +129,7 @@ def observe(cfg, xs):
                     obs["int_differs"] = True
             # a sample whose values are whole numbers may arrive as an integer array (0/1 ballots): same answer required
             if all(v.denominator == 1 for v in xs):
-                p3, h3 = make(cfg).test(np.array([int(v) for v in xs], dtype=int))
+                p3, h3 = make(cfg).test(np.array([int(v) for v in xs], dtype=(np.int8 if cfg.get("paths") else int)))  # 0/1 ballots are often stored in small integer types
                 h3 = [float(v) for v in np.asarray(h3, dtype=float).ravel()]
                 obs["int_differs"] = obs["int_differs"] or not (feq(float(p3), obs["p"]) and len(h3) == len(obs["hist"]) and all(feq(a, b) for a, b in zip(h3, obs["hist"])))
         except Exception as e:  # noqa
@@ -308,6 +308,18 @@ def long_configs(tier):
                     continue  # one default-route fixed alternative is enough here
                 out.append({"test": test, "estim": estim, "bet": bet, "kw": kw, "u": u, "t": t, "N": N if finite else None,
                             "H": None if finite else L, "k": 2, "D": L, "paths": [P, L], "ro": True})
+    return out
+
+
+def bign_configs(tier):
+    """short samples from a LARGE population (N = 1000, 100000): the first few draws are < 1% of the population"""
+    out = []
+    for N in (1000, 100000):
+        for u, t in (("1", "1/2"), ("17/32", "1/2")):
+            for test, estim, bet, kw in (("alpha_mart", "fixed_alternative_mean", None, {}), ("alpha_mart", None, None, {"eta": str(fr(u) - fr("1/256"))}),
+                                         ("alpha_mart", "shrink_trunc", None, {}), ("alpha_mart", "shrink_trunc", None, {"eta": str(fr(u) - fr("1/256")), "d": 2}),
+                                         ("betting_mart", None, "agrapa", {"lam": "1/2"}), ("wald_sprt", None, None, {"eta": str(fr(u) - fr("1/256"))})):
+                out.append({"test": test, "estim": estim, "bet": bet, "kw": kw, "u": u, "t": t, "N": N, "H": None, "k": 2, "D": 5 if tier == "quick" else 7, "ro": True})
     return out
 
 
